@@ -101,6 +101,17 @@ func runImpl(count uint32, hashes []pmtref.Hash, flags []byte) (o implOut) {
 	return
 }
 
+// slowAgain re-runs an over-budget call three times and reports whether even the fastest run is over
+// budget (a scheduling or GC pause in a parallel sweep is not a finding).
+func slowAgain(count uint32, hashes []pmtref.Hash, flags []byte, budget int64) bool {
+	for i := 0; i < 3; i++ {
+		if o := runImpl(count, hashes, flags); o.Nanos <= budget {
+			return false
+		}
+	}
+	return true
+}
+
 // ---------- monitors (safe for concurrent use: violations go to a local sink) ----------
 type sink struct {
 	evals, accepted int
@@ -166,7 +177,7 @@ func monitor(s *sink, count uint32, hashes []pmtref.Hash, flags []byte) (implOut
 		return o, r
 	}
 	// generous: 2 node hashes of 64 bytes per flag bit cost well under a microsecond each
-	if budget := int64(50e6) + int64(len(flags))*8*20000; o.Nanos > budget {
+	if budget := int64(50e6) + int64(len(flags))*8*20000; o.Nanos > budget && slowAgain(count, hashes, flags, budget) {
 		s.violate("C12:time", fmt.Sprintf("ExtractMatches took %d ns on %d flag bytes", o.Nanos, len(flags)), rp())
 	}
 	if o.OK && !r.OK {
@@ -289,7 +300,7 @@ type jobResult struct {
 	samples map[string][]sample
 }
 
-func runJob(j job, alphabet []pmtref.Hash, maxHashes func(uint32) int, rng *vh.RNG, secondBytes []int) jobResult {
+func runJob(j job, alphabet []pmtref.Hash, maxHashes func(uint32, int) int, rng *vh.RNG, secondBytes []int) jobResult {
 	res := jobResult{s: newSink(), samples: map[string][]sample{}}
 	seen := map[string]int{}
 	var flagSets [][]byte
@@ -305,7 +316,7 @@ func runJob(j job, alphabet []pmtref.Hash, maxHashes func(uint32) int, rng *vh.R
 	}
 	k := len(alphabet)
 	for _, flags := range flagSets {
-		for L := 0; L <= maxHashes(j.count); L++ {
+		for L := 0; L <= maxHashes(j.count, j.flagsLen); L++ {
 			total := 1
 			for i := 0; i < L; i++ {
 				total *= k
@@ -336,7 +347,7 @@ func runJob(j job, alphabet []pmtref.Hash, maxHashes func(uint32) int, rng *vh.R
 	return res
 }
 
-func exhaustive(name string, alphabet []pmtref.Hash, maxCount uint32, maxHashes func(uint32) int, secondBytes []int, perClass int, rng *vh.RNG) {
+func exhaustive(name string, alphabet []pmtref.Hash, maxCount uint32, maxHashes func(uint32, int) int, secondBytes []int, perClass int, rng *vh.RNG) {
 	var jobs []job
 	for c := uint32(0); c <= maxCount; c++ {
 		jobs = append(jobs, job{c, 0, -1})
@@ -657,7 +668,7 @@ func main() {
 	cfg = vh.ParseFlags("C12")
 	rep = vh.NewReport(cfg)
 	rep.Rule = "a message is non-trivial when it passes the four pre-traversal checks (count in 1..MaxTxnCount, hashes <= count, bits >= hashes) so that the tree traversal runs; exhaustive small scopes are counted per message"
-	cases = vh.NewCases(cfg, "Run.Run_C12", 250)
+	cases = vh.NewCases(cfg, "Run.Run_C12", 60)
 	maxTxn = merkleblock.MaxTxnCount
 	rng := vh.NewRNG(cfg.Seed)
 	rep.Extra["MaxTxnCount"] = maxTxn
@@ -691,23 +702,31 @@ func main() {
 	for i := range allBytes {
 		allBytes[i] = i
 	}
-	upTo := func(c uint32) int { return int(c) + 1 }
+	// hash lists of every length <= count+1 (one more than can be valid) with flag strings of <= 1 byte,
+	// of every length <= count with 2-byte flag strings (the "more hashes than transactions" rule is
+	// checked before the flags are looked at)
+	upTo := func(c uint32, flagsLen int) int {
+		if flagsLen <= 1 {
+			return int(c) + 1
+		}
+		return int(c)
+	}
 	t0 := time.Now()
 	switch {
 	case cfg.Search:
 		exhaustive("scope{A,B,H(A,A)}", []pmtref.Hash{A, B, AA}, 7, upTo, allBytes, 0, rng.Fork("ex1"))
-		exhaustive("scope{0,A,H(A,B)}", []pmtref.Hash{Z, A, AB}, 7, upTo, allBytes, 0, rng.Fork("ex2"))
+		exhaustive("scope{0,A,H(A,B)}", []pmtref.Hash{Z, A, AB}, 6, upTo, allBytes, 0, rng.Fork("ex2"))
 		mutationStream(rng.Fork("mut"), 6000, 5000, 1<<30, 0, 0)
 	case cfg.Thorough():
-		// count <= 7, all hash lists of length <= count+1 over three letters, all flag strings of <= 2 bytes
-		exhaustive("scope{A,B,H(A,A)}", []pmtref.Hash{A, B, AA}, 7, upTo, allBytes, 6, rng.Fork("ex1"))
-		exhaustive("scope{0,A,H(A,B)}", []pmtref.Hash{Z, A, AB}, 6, upTo, allBytes, 2, rng.Fork("ex2"))
-		mutationStream(rng.Fork("mut"), 3000, 5000, 37, 12, 400)
+		// count <= 7, all hash lists over three letters, all flag strings of <= 2 bytes
+		exhaustive("scope{A,B,H(A,A)}", []pmtref.Hash{A, B, AA}, 7, upTo, allBytes, 3, rng.Fork("ex1"))
+		exhaustive("scope{0,A,H(A,B)}", []pmtref.Hash{Z, A, AB}, 5, upTo, allBytes, 1, rng.Fork("ex2"))
+		mutationStream(rng.Fork("mut"), 3000, 5000, 53, 4, 120)
 	default:
-		// quick: the same scope with the second flag byte restricted to 16 values (all 2-byte strings in the thorough tier)
-		second := []int{0, 1, 2, 3, 5, 7, 0x0f, 0x15, 0x2a, 0x3f, 0x55, 0x7f, 0x80, 0xaa, 0xfe, 0xff}
-		exhaustive("scope{A,B,H(A,A)}", []pmtref.Hash{A, B, AA}, 7, upTo, second, 3, rng.Fork("ex1"))
-		mutationStream(rng.Fork("mut"), 600, 3000, 41, 10, 300)
+		// quick: the same scope with the second flag byte restricted to 8 values (all 2-byte strings in the thorough tier)
+		second := []int{0, 1, 3, 0x15, 0x2a, 0x7f, 0x80, 0xff}
+		exhaustive("scope{A,B,H(A,A)}", []pmtref.Hash{A, B, AA}, 7, upTo, second, 1, rng.Fork("ex1"))
+		mutationStream(rng.Fork("mut"), 600, 3000, 67, 4, 100)
 	}
 	rep.Extra["exhaustive_and_mutation_seconds"] = time.Since(t0).Seconds()
 	rep.Sample(map[string]interface{}{"family": "edge", "what": "CVE-2012-2459 shapes, count 0 / MaxTxnCount / MaxTxnCount+1 / 2^32-1, megabyte flag strings"}, 4)
